@@ -70,13 +70,13 @@ PROPS = {
         'trusted': ['hand-written interaction-tree model of the handler tied to the code by the differential run', 'oracles: jwt parsing/claims (jwx), JWS verification, SHA-256; url.Parse of the callback URI', 'the three steps are composed through hypotheses that the store returns what was stored (C12) and that the browser presents the cookie it was given (cookie_read_back)'],
     },
     'C04': {
-        'theorems': ['exchange_requires_state', 'challenge_matches', 'state_stored_under_issued_id', 'clear_consumes', 'callback_without_state_no_exchange', 'query_robust'],
-        'trusted': ['hand-written interaction-tree model of the handler tied to the code by the differential run', 'oracles: jwt parsing/claims (jwx), JWS verification, SHA-256; url.Parse of the callback URI', 'interleavings: per-check theorems hold for every thread under any schedule; cross-thread consumption (overlapping callbacks of one session) is exercised by enumerating interleavings on the real code, not proved; generator freshness/distinctness is an assumption discharged by C06'],
+        'theorems': ['exchange_requires_state', 'challenge_matches', 'state_stored_under_issued_id', 'clear_consumes', 'callback_without_state_no_exchange', 'query_robust', 'consumed_state_no_later_exchange'],
+        'trusted': ['hand-written interaction-tree model of the handler tied to the code by the differential run', 'oracles: jwt parsing/claims (jwx), JWS verification, SHA-256; url.Parse of the callback URI', 'interleavings: per-check theorems hold for every thread under any schedule; consumed_state_no_later_exchange covers every interleaving of any number of checks over a store that answers like the abstract session map (both stores refine it, C12; atomicity of a single store call is assumed); inside the overlap window of concurrent callbacks the statement is silent; listed scenarios are also enumerated on real goroutines under the controlled scheduler'],
     },
     'C09': {
         'theorems': ['logout_answer', 'logout_answer_shape', 'logout_only_after_removal', 'removal_erases', 'ok_requires_tokens_read', 'writes_need_prior_read', 'resurrection_logout_answered', 'resurrection_inflight_ok', 'logout_resurrection', 'finality_characterisation',
                      'redis_removal_reported_faithfully', 'redis_nothing_after_removal', 'logout_uri_configured_or_discovered', 'discovery_refuses_logout_without_uri'],
-        'trusted': ['hand-written interaction-tree model of the handler tied to the code by the differential run', 'oracles: jwt parsing/claims (jwx), JWS verification, SHA-256; url.Parse of the callback URI', 'schedule-level finality is NOT a theorem: the model exhibits the resurrection schedule (known finding); every interleaving of logout x one or two checks is enumerated on real goroutines and on the Sched model'],
+        'trusted': ['hand-written interaction-tree model of the handler tied to the code by the differential run', 'oracles: jwt parsing/claims (jwx), JWS verification, SHA-256; url.Parse of the callback URI', 'finality over ALL interleavings is proved up to one shape (finality_characterisation: tokens served after an acknowledged removal imply a thread that read the session before the removal and wrote tokens after it) over a store that answers like the abstract session map (both stores refine it, C12; atomicity of a single store call is assumed); that shape is the known finding, exhibited by a kernel-decided witness schedule; every interleaving of logout x one or two checks is also enumerated on real goroutines'],
     },
     'C06': {
         'theorems': ['sid_independent_of_public', 'every_id_reachable', 'draw_uniform', 'charset_distinct', 'no_prng_import', 'generator_calls_exact', 'identifier_lengths', 'charset_matches_source', 'limit_formula'],
